@@ -72,3 +72,21 @@ Example c15_example :
                [Init 0 []; Subscribe 0x11 2 (Ans 0); Subscribe 0x33 1 TimeoutLost; Unsubscribe 0x22 (Ans 1)] in
   map fst (subs st) = [0x22; 0x11] /\ avail st = [1] /\ ncp st = [(0x22, 1); (0, 0); (0x11, 1)].
 Proof. vm_compute. repeat split. Qed.
+
+(* ---- the tie to the source text --------------------------------------------------------------------
+   gen/GenMulticastFn.v is emitted on every run from the Python AST of Multicast.subscribe and
+   Multicast.unsubscribe (coroutines with a single await: the outcome of the awaited table write is a
+   parameter).  The host side of [step] -- the dict of subscriptions, the set of free indices, the
+   reported result, the table write issued -- is what the source does; the free indices are compared
+   as a set (the source pops an index and adds it back where the model leaves the list alone). *)
+Require Import BV.gen.GenMulticastFn BV.proofs.MulticastSrc_proofs.
+Theorem c15_source_subscribe : forall st g choice a,
+  let '(s', av', r, w) := py_subscribe (subs st) (avail st) g choice a in
+  let '(st', r', w') := step st (Subscribe g choice a) in
+  subs st' = s' /\ seteq (avail st') av' /\ r' = r /\ w' = w.
+Proof. exact src_subscribe. Qed.
+Theorem c15_source_unsubscribe : forall st g a,
+  let '(s', av', r, w) := py_unsubscribe (subs st) (avail st) g a in
+  let '(st', r', w') := step st (Unsubscribe g a) in
+  subs st' = s' /\ avail st' = av' /\ r' = r /\ w' = w.
+Proof. exact src_unsubscribe. Qed.
